@@ -292,10 +292,85 @@ def probes_from_log(r, cf, p_idx, acc):
     return flushes_in_record or overwritten or any(rec.length >= 0xFF00 for rec in cf.records)
 
 
-def check_generated(sim, lines, model, knobs, variant, acc):
+WRAP_KINDS = ["include", "macro", "rept1", "irp1", "if1", "section", "phase", "listing", "include2", "struct-free"]
+
+
+def wrap(lines, seed):
+    """Wrap disjoint blocks of statements in constructs that do not change what bytes the source specifies, so that
+    emission is interleaved with include-file boundaries, macro / REPT / IRP expansion, IF, SECTION and PHASE.
+    Returns (source text, extra disk files, kinds used)."""
+    rng = Rng(seed)
+    n = len(lines)
+
+    def plain(i):  # statements that may go anywhere
+        w = lines[i].split()
+        return bool(w) and w[0] not in ("end", "cpu", "padding") and not lines[i].rstrip().endswith(":")
+
+    out = []
+    extra = {}
+    used = []
+    i = 0
+    k = 0
+    macros = []
+    while i < n:
+        if rng.chance(0.25) and plain(i):
+            j = i
+            lim = rng.randint(1, 6)
+            while j < n and j - i < lim and plain(j):
+                j += 1
+            block = lines[i:j]
+            kind = rng.choice(WRAP_KINDS)
+            has_ctl = any(b.split()[0] in ("org", "segment") for b in block)
+            if kind == "phase" and has_ctl:
+                kind = "if1"
+            k += 1
+            if kind == "include":
+                extra["/w/blk%d.inc" % k] = ("\n".join(block) + "\n").encode()
+                out.append("\tinclude \"blk%d.inc\"" % k)
+            elif kind == "include2":  # nested include, inner file without a final newline
+                extra["/w/blk%d.inc" % k] = ("\tinclude \"blk%di.inc\"\n" % k).encode()
+                extra["/w/blk%di.inc" % k] = "\n".join(block).encode()
+                out.append("\tinclude \"blk%d.inc\"" % k)
+            elif kind == "macro":
+                macros += ["wm%d\tmacro" % k] + block + ["\tendm"]
+                out.append("\twm%d" % k)
+            elif kind == "rept1":
+                out += ["\trept 1"] + block + ["\tendm"]
+            elif kind == "irp1":
+                out += ["\tirp wx%d,1" % k] + block + ["\tendm"]
+            elif kind == "if1":
+                out += ["\tif 1"] + block + ["\telse", "\terror \"not here\"", "\tendif"]
+            elif kind == "section":
+                out += ["\tsection ws%d" % k] + block + ["\tendsection ws%d" % k]
+            elif kind == "phase":
+                out += ["\tphase %d" % rng.choice([0, 0, 3, 16])] + block + ["\tdephase"]
+            elif kind == "listing":
+                out += ["\tlisting off"] + block + ["\tlisting on"]
+            else:
+                out += ["\tif 0", "\tfoo bar", "\tendif"] + block
+            used.append(kind)
+            i = j
+        else:
+            out.append(lines[i])
+            i += 1
+    # macro definitions go behind the leading cpu/padding lines
+    h = 0
+    while h < len(out) and out[h].split() and out[h].split()[0] in ("cpu", "padding"):
+        h += 1
+    out = out[:h] + macros + out[h:]
+    return ("\n".join(out) + "\n").encode(), extra, used
+
+
+def check_generated(sim, lines, model, knobs, variant, acc, wrap_seed=None):
     """Run one generated program under one knob setting; returns (violations, code file bytes, nontrivial)."""
-    src = ("\n".join(lines) + "\n").encode()
-    sc = scenario(src, knobs)
+    if wrap_seed:
+        src, extra, used = wrap(lines, wrap_seed)
+        for u in used:
+            acc["faults"]["wrapped-in-" + u] = acc["faults"].get("wrapped-in-" + u, 0) + 1
+        sc = scenario(src, knobs, extra_disk=extra)
+    else:
+        src = ("\n".join(lines) + "\n").encode()
+        sc = scenario(src, knobs)
     r, san = sim.run("asl", sc, variant)
     acc["runs"] += 1
     acc["sim_us"] += r.sim_us
@@ -417,7 +492,7 @@ def run_explicit(sim, case, acc):
     vio = []
     files = []
     for kn in case["knobs"]:
-        vs, p, nt = check_generated(sim, lines, model, kn, case.get("variant", "plain"), acc)
+        vs, p, nt = check_generated(sim, lines, model, kn, case.get("variant", "plain"), acc, case.get("wrap"))
         vio += vs
         files.append(p)
     good = [f for f in files if f is not None]
@@ -447,6 +522,8 @@ def run_case(sim, case):
             variant = "asan" if rng.chance(0.05) else "plain"
             knobs = [{"codebuf": 512, "stdio_buf": 0, "read_chunk": 0}] + [knob_env(rng) for _ in range(case["knobs"] - 1)]
             c = {"kind": "explicit", "lines": lines, "knobs": knobs, "variant": variant}
+            if not case.get("big") and rng.chance(0.4):
+                c["wrap"] = 1 + rng.below(1 << 30)
             before = dict(acc["probes"])
             vio = run_explicit(sim, c, acc)
             nt = 1 if acc["probes"] != before else 0
@@ -521,6 +598,8 @@ def minimise(sim, case, vclass):
     def holds(lines, knobs):
         try:
             c = {"kind": "explicit", "lines": lines, "knobs": knobs, "variant": case.get("variant", "plain")}
+            if case.get("wrap"):
+                c["wrap"] = case["wrap"]
             return vclass in [v["class"] for v in run_case(sim, c)["violations"]]
         except Exception:
             return False
@@ -534,4 +613,7 @@ def minimise(sim, case, vclass):
                 break
     # keep structural lines (cpu/segment/padding) to stay valid; ddmin over the rest
     lines = ddmin(lines, lambda ls: holds(ls, knobs), max_tests=200)
-    return {"kind": "explicit", "lines": lines, "knobs": knobs, "variant": case.get("variant", "plain")}
+    out = {"kind": "explicit", "lines": lines, "knobs": knobs, "variant": case.get("variant", "plain")}
+    if case.get("wrap"):
+        out["wrap"] = case["wrap"]
+    return out
